@@ -99,6 +99,7 @@ def run(ctx):
     variants = [gen_xpkg.variant(rng) for _ in range(nvar)]
     variants[0]["shape"], variants[1 % nvar]["shape"] = "chain", "diamond"
     progs = [gen_xpkg.build(v, "C06_%d" % i) + (v,) for i, v in enumerate(variants)]
+    variants[0]["unsafe"], variants[1 % nvar]["unsafe"] = True, False
     allp = ["m/d", "m/u", "m/w"]
     subsets = [list(c) for k in (1, 2, 3) for c in itertools.combinations(allp, k)]
     runs = mism = 0
